@@ -94,6 +94,31 @@ let kcfg_of_sx = function
   | L [t; f; m] -> { k_typed = int_of_sx t <> 0; k_flat = int_of_sx f <> 0; k_mark = int_of_sx m <> 0 }
   | _ -> failwith "kcfg expected"
 
+(* ---- rounding model *)
+let ckind_of = function
+  | "l" -> KList | "t" -> KTuple | "s" -> KSet | "f" -> KFrozen | "b" -> KBytes | "o" -> KOpaque
+  | k -> failwith ("ckind " ^ k)
+let ckind_s = function KList -> "l" | KTuple -> "t" | KSet -> "s" | KFrozen -> "f" | KBytes -> "b" | KOpaque -> "o"
+let rec rval_of_sx = function
+  | A "N" -> RNone
+  | L [A "F"; x] -> RFloat (z_of_int (int_of_sx x))
+  | L [A "I"; x] -> RInt (z_of_int (int_of_sx x))
+  | L [A "B"; x] -> RBool (int_of_sx x <> 0)
+  | L [A "S"; x] -> RStr (z_of_int (int_of_sx x))
+  | L [A "O"; x] -> RObj (z_of_int (int_of_sx x))
+  | L (A "Q" :: A k :: l) -> RSeq (ckind_of k, List.map rval_of_sx l)
+  | L (A "D" :: l) -> RDict (List.map (function L [k; v] -> (rval_of_sx k, rval_of_sx v) | _ -> failwith "dict entry") l)
+  | _ -> failwith "rval expected"
+let rec show_rval = function
+  | RNone -> "N"
+  | RFloat z -> "(F " ^ string_of_int (int_of_z z) ^ ")"
+  | RInt z -> "(I " ^ string_of_int (int_of_z z) ^ ")"
+  | RBool b -> if b then "(B 1)" else "(B 0)"
+  | RStr z -> "(S " ^ string_of_int (int_of_z z) ^ ")"
+  | RObj z -> "(O " ^ string_of_int (int_of_z z) ^ ")"
+  | RSeq (k, l) -> "(Q " ^ ckind_s k ^ String.concat "" (List.map (fun v -> " " ^ show_rval v) l) ^ ")"
+  | RDict l -> "(D" ^ String.concat "" (List.map (fun (k, v) -> " (" ^ show_rval k ^ " " ^ show_rval v ^ ")") l) ^ ")"
+
 let handle (line : string) : bool =
   let line = String.trim line in
   let cmd, rest =
@@ -123,6 +148,19 @@ let handle (line : string) : bool =
        | [sg; ig; kc; cl] ->
            print_string (show_val (key_of (sig_of_sx sg) (ign_of_sx ig) (kcfg_of_sx kc) (call_of_sx cl)) ^ "\n")
        | _ -> print_string "error k.key syntax\n");
+      true
+  | "r.call" ->
+      (* r.call <tol_given> <mode s|d|h> ((id rid) ...) (args...) ((name v)...) *)
+      (match parse_all rest with
+       | [tg; A m; L tbl; L args; L kws] ->
+           let table = List.map (function L [a; b] -> (int_of_sx a, int_of_sx b) | _ -> failwith "table") tbl in
+           let rnd z = (match List.assoc_opt (int_of_z z) table with Some r -> z_of_int r | None -> z) in
+           let mode = (match m with "s" -> MSimple | "d" -> MDeep | _ -> MShallow) in
+           let kwl = List.map (function L [k; v] -> (z_of_int (int_of_sx k), rval_of_sx v) | _ -> failwith "kw") kws in
+           let (a, k) = round_call rnd (int_of_sx tg <> 0) mode (List.map rval_of_sx args) kwl in
+           print_string ("(" ^ String.concat " " (List.map show_rval a) ^ ") (" ^
+                         String.concat " " (List.map (fun (n, v) -> "(" ^ string_of_int (int_of_z n) ^ " " ^ show_rval v ^ ")") k) ^ ")\n")
+       | _ -> print_string "error r.call syntax\n");
       true
   | "k.eq" ->
       (match parse_all rest with
